@@ -21,6 +21,7 @@ import gc
 import logging
 import os
 import random
+import re
 import shutil
 import sys
 import threading
@@ -109,12 +110,12 @@ class World:
         elif op == "drop":
             del self.pools[c["h"]]
             gc.collect(0)
-        elif op == "move":
+        elif op in ("move", "copy"):         # the environment renames / copies a pool folder (only to a name that is free)
+            src, dst = self.path(c["d1"]), self.path(c["d2"])
+            if not os.path.isdir(src) or os.path.exists(dst):
+                raise OSError("no such folder, or the target exists")
             os.makedirs(self.prefix_dir(c["d2"][0]), exist_ok=True)
-            shutil.move(self.path(c["d1"]), self.path(c["d2"]))
-        elif op == "copy":
-            os.makedirs(self.prefix_dir(c["d2"][0]), exist_ok=True)
-            shutil.copytree(self.path(c["d1"]), self.path(c["d2"]))
+            (shutil.move if op == "move" else shutil.copytree)(src, dst)
         elif op == "chdir_home":
             os.chdir(self.root)
         else:
@@ -221,10 +222,17 @@ class World:
                     bs=int(p.batch_size or 0), seed=-1 if p.seed is None else int(p.seed), order=order,
                     stores=[self.project_store(n, p.stores[n], p) for n in p.stores.keys()], len=ln, has=has)
 
+    def safe_project_pool(self, p):
+        try:
+            return self.project_pool(p)
+        except Exception as ex:          # a changed tree may break what the projection reads: reported by TLC as a difference
+            return dict(ex=True, kind="projection failed: " + type(ex).__name__, name="", prefix="", bs=0, seed=-1, order=[], stores=[], len=0,
+                        has=[False] * NHAS)
+
     def project_dir(self, d):
         path = self.path(d)
         if not os.path.isdir(path):
-            return dict(ex=False, pkl=False, spk=[False] * len(NODESEQ), npy=[dict(ex=False, ini=False, vals=[]) for _ in NODESEQ], extra=0)
+            return None
         entries = set(os.listdir(path))
         known = {"_outputpool.pkl"}
         spk, npy = [], []
@@ -244,7 +252,7 @@ class World:
                 except Exception:
                     vals = [-3]
                 npy.append(dict(ex=True, ini=True, vals=vals))
-        return dict(ex=True, pkl=os.path.isfile(os.path.join(path, "_outputpool.pkl")), spk=spk, npy=npy, extra=len(entries - known))
+        return dict(j=DIRS.index(d) + 1, pkl=os.path.isfile(os.path.join(path, "_outputpool.pkl")), spk=spk, npy=npy, extra=len(entries - known))
 
     def observe(self):
         from elfi.store import ArrayStore
@@ -266,8 +274,8 @@ class World:
                 if os.path.isdir(pd):
                     outside += len(set(os.listdir(pd)) - set(NAMES))
         return dict(cwd_home=os.path.realpath(os.getcwd()) == os.path.realpath(self.root),
-                    pools=[self.project_pool(self.pools.get(h)) for h in range(1, NHANDLES + 1)],
-                    disk=[self.project_dir(d) for d in DIRS], outside=outside)
+                    pools=[self.safe_project_pool(self.pools.get(h)) for h in range(1, NHANDLES + 1)],
+                    disk=[x for x in (self.project_dir(d) for d in DIRS) if x is not None], outside=outside)
 
 
 @contextlib.contextmanager
@@ -557,7 +565,7 @@ def random_scenario(rnd, k):
 
 def scenarios(ctx):
     rnd = random.Random(ctx.seed * 104729 + 77)
-    n = 60 if ctx.quick else 600
+    n = 50 if ctx.quick else 500
     out = pinned()
     out += [random_scenario(rnd, k) for k in range(max(0, n - len(out)))]
     return out
@@ -621,8 +629,11 @@ class _Lane:
         summ["label"] = label or cfg
         summ["expect_ok"] = expect_ok
         self.tlc_runs.append(summ)
+        cov = dict(r.coverage)
+        for mm in re.finditer(r"^<(\w+) line \d+, col \d+ to line \d+, col \d+ of module \w+ \([\d ]+\)>: (\d+):(\d+)", r.out, re.M):
+            cov[mm.group(1)] = [int(mm.group(2)), int(mm.group(3))]        # actions TLC reports with a sub-location
         for a in (expect_actions or []):
-            if r.coverage.get(a, [0, 0])[1] == 0:
+            if cov.get(a, [0, 0])[1] == 0:
                 raise tlc.MachineryFailure("action %s of %s never taken (vacuous run)\n%s" % (a, module, r.out[-1500:]))
         if expect_ok and not r.ok:
             raise tlc.MachineryFailure("design module %s/%s violates %s\n%s" % (module, cfg, r.violated, r.trace_text[:3000]))
@@ -644,42 +655,46 @@ def design_jobs(ctx):
         lanes[lane].append(lambda acc: acc.tlc("MC_PoolLife", "MC_PoolLife_" + name, cfg_text=cfg_text, workers=workers, timeout=1800, **kw))
 
     every = INV_MACHINE + INV_USER + INV_CALLS
+    one = dict(nodes=("a",), outs="Outs_a_only", ns="Ns_a", vals=(1,))
+    abs1 = dict(one, prefixes=("A",), absp=("A",), env=True)
+    abs2 = dict(one, prefixes=("A", "B"), absp=("A", "B"), env=True)
     # (1) every action is taken (small instance with everything switched on; the only run with TLC's coverage statistics)
-    job(0, "actions", mc_cfg([], INV_MACHINE, nodes=("a",), prefixes=("A", "B"), absp=("A", "B"), outs="Outs_a_only", ns="Ns_a", vals=(1,), maxi=0,
-                             whats=("default", "bad"), maxops=5, env=True),
+    job(0, "actions", mc_cfg([], INV_MACHINE, maxi=0, whats=("default", "bad"), maxops=5, handles=(1,), **abs2),
         expect_actions=ACTIONS, label="PoolLife as the code is: every action taken")
     # (2) the repaired machine keeps every user-level invariant
-    job(0, "repaired", mc_cfg(ALL_FIXES, every, whats=("default", "bad"), outs="Outs_ab" if not q else "Outs_ab_only", maxops=5 if q else 7,
-                              kinds=("array",) if q else ("array", "output")),
+    job(0, "repaired", mc_cfg(ALL_FIXES, every, whats=("default", "bad") if q else ("default", "bad", "dict"), outs="Outs_ab_only" if q else "Outs_ab",
+                              maxops=5 if q else 6),
         label="PoolLife repaired (all six repairs): every user-level invariant")
-    job(1, "repaired_abs", mc_cfg(ALL_FIXES, every, nodes=("a",), prefixes=("A", "B"), absp=("A", "B"), outs="Outs_a_only", ns="Ns_a", vals=(1,),
-                                  maxi=1, maxops=7 if q else 9, env=True),
+    job(1, "repaired_abs", mc_cfg(ALL_FIXES, every, maxi=1, maxops=6 if q else 7, **(abs1 if q else abs2)),
         label="PoolLife repaired, absolute prefixes, folders renamed / copied")
     # (3) the code as transcribed: what does hold
     code_invs = INV_MACHINE + INV_CALLS + ["RoundTripInitialised"]
-    job(2, "code", mc_cfg([], code_invs + ["Isolation", "SelfContained", "CwdKept"], prefixes=("p", "q") if not q else ("p",),
-                          kinds=("array", "output"), outs="Outs_ab" if not q else "Outs_ab_only", whats=("default", "dict"),
-                          maxops=5 if q else 6),
+    rel_invs = code_invs + ["Isolation", "SelfContained", "CwdKept"]
+    job(2, "code", mc_cfg([], rel_invs, prefixes=("p",) if q else ("p", "q"), outs="Outs_ab_only" if q else "Outs_ab", whats=("default", "dict"),
+                          maxops=5),
         label="PoolLife as the code is (relative prefixes, picklable stores): folder rules, isolation, round trip of initialised stores")
     if not q:
-        job(1, "code_abs", mc_cfg([], code_invs, nodes=("a",), prefixes=("A", "B"), absp=("A", "B"), outs="Outs_a_only", ns="Ns_a", vals=(1,),
-                                  maxi=1, maxops=8, env=True, whats=("default", "bad")),
+        job(2, "code_deep", mc_cfg([], rel_invs, maxops=6), label="PoolLife as the code is, one prefix, six calls")
+    job(0, "code_output", mc_cfg([], rel_invs + ["NoPhantoms", "NewStoreIsEmpty", "RoundTrip"], kinds=("output",), maxi=2, maxops=5 if q else 6,
+                                 prefixes=("p",) if q else ("p", "q"), **one),
+        label="PoolLife as the code is, OutputPool (dict stores): every invariant but atomicity")
+    if not q:
+        job(1, "code_abs", mc_cfg([], code_invs, maxi=1, maxops=7, whats=("default", "bad"), **abs2),
             label="PoolLife as the code is, absolute prefixes, folders renamed / copied, unpicklable stores")
     # (4) negative controls: leave one repair out and a user-level invariant breaks
     ctl = [("atomic", "AtomicCalls", dict(maxops=4)),
-           ("save_restores_cwd", "CwdKept", dict(maxops=5, whats=("default", "bad"), nodes=("a",), outs="Outs_a_only", ns="Ns_a")),
-           ("make_store_exclusive", "NewStoreIsEmpty", dict(maxops=6, nodes=("a",), outs="Outs_a_only", ns="Ns_a", vals=(1,))),
-           ("open_reconciles", "NoPhantoms", dict(maxops=6, nodes=("a",), outs="Outs_a_only", ns="Ns_a", vals=(1,))),
-           ("empty_file_is_empty_store", "RoundTrip", dict(maxops=5, nodes=("a",), outs="Outs_a_only", ns="Ns_a", vals=(1,), handles=(1, 2))),
-           ("basename_first", "SelfContained", dict(maxops=7, nodes=("a",), prefixes=("A", "B"), absp=("A", "B"), outs="Outs_a_only", ns="Ns_a",
-                                                    vals=(1,), maxi=0, env=True))]
+           ("save_restores_cwd", "CwdKept", dict(one, maxops=5, whats=("default", "bad"))),
+           ("make_store_exclusive", "NewStoreIsEmpty", dict(one, maxops=6)),
+           ("open_reconciles", "NoPhantoms", dict(one, maxops=6)),
+           ("empty_file_is_empty_store", "RoundTrip", dict(one, maxops=5)),
+           ("basename_first", "SelfContained", dict(abs1, maxops=7, maxi=0))]
     for k, (fixname, inv, kw) in enumerate(ctl):
         rest = [f for f in ALL_FIXES if f != fixname]
-        job(1 + k % 2, "without_" + fixname, mc_cfg(rest, [inv], **kw), expect_ok=False, expect_violated=inv,
+        job(2 if k < 4 else 0, "without_" + fixname, mc_cfg(rest, [inv], **kw), expect_ok=False, expect_violated=inv,
             label="PoolLife control: store.py without the repair '%s' breaks %s" % (fixname, inv))
-    job(2, "code_isolation", mc_cfg([], ["Isolation"], nodes=("a",), prefixes=("A", "B"), absp=("A", "B"), outs="Outs_a_only", ns="Ns_a", vals=(1,),
-                                    maxi=1, maxops=7, env=True), expect_ok=False, expect_violated="Isolation",
-        label="PoolLife control: the code as it is under absolute prefixes breaks Isolation")
+    if not q:
+        job(0, "code_isolation", mc_cfg([], ["Isolation"], maxi=1, maxops=7, **abs1), expect_ok=False, expect_violated="Isolation",
+            label="PoolLife control: the code as it is under absolute prefixes breaks Isolation")
     return lanes
 
 
@@ -717,60 +732,79 @@ class Design:
 # ------------------------------------------------------------------------------ corrupted copies (binding demonstration)
 def corruptions(scs, traces):
     """(what, expected clause, trace, index of the source trace): one observed field of a real trace is changed; TLC must reject the
-    copy with the clause.  Python only picks WHERE to corrupt."""
+    copy with the clause.  Python only picks WHERE to corrupt.  (On a changed tree the source trace may not have the shape a corruption
+    needs: that one is skipped.)"""
     out = []
-    tr = traces[0]
-    evs = tr["events"]
 
-    def upto(j):
+    def first(tr, pred):
+        return next((i for i, e in enumerate(tr["events"]) if pred(e)), None)
+
+    def attempt(what, want, k, pred, change):
+        tr = traces[k]
+        j = first(tr, pred)
+        if j is None:
+            return
         t = copy.deepcopy(tr)
         t["events"] = t["events"][:j + 1]
-        return t
+        try:
+            change(t["events"], j, t["events"][j]["obs"]["pools"][max(0, t["events"][j]["call"]["h"] - 1)])
+        except (IndexError, KeyError, TypeError):
+            return
+        out.append((what, want, t, k))
 
-    j = next((i for i, e in enumerate(evs) if e["call"]["op"] == "open" and e["raised"] == ""), None)
-    if j is not None:
-        h = evs[j]["call"]["h"] - 1
-        t = upto(j)
-        t["events"][j]["obs"]["pools"][h]["stores"][0]["n"] += 1
-        out.append(("the opened pool reports one batch more than was saved", "E:open-store-count", t, 0))
-        t = upto(j)
-        t["events"][j]["obs"]["pools"][h]["seed"] = 0
-        out.append(("the opened pool reports another seed", "E:open-pool-seed", t, 0))
-        t = upto(j)
-        t["events"][j]["obs"]["pools"][h]["stores"][0]["vals"][0] += 1
-        out.append(("the opened pool returns other content for batch 0", "E:open-store-content", t, 0))
-        t = upto(j)
-        t["events"][j]["obs"]["pools"][h]["order"] = t["events"][j]["obs"]["pools"][h]["order"][::-1]
-        t["events"][j]["obs"]["pools"][h]["stores"] = t["events"][j]["obs"]["pools"][h]["stores"][::-1]
-        out.append(("the opened pool lists its stores in another order", "E:open-pool-stores", t, 0))
-    j = next((i for i, e in enumerate(evs) if e["call"]["op"] == "close" and e["raised"] == ""), None)
-    if j is not None:
-        h = evs[j]["call"]["h"] - 1
-        t = upto(j)
-        t["events"][j]["obs"]["pools"][h]["stores"][0]["op"] = True
-        out.append(("a store is still open after close()", "E:close-store-open", t, 0))
-        t = upto(j)
-        k = next(i for i, d in enumerate(t["events"][j]["obs"]["disk"]) if d["ex"])
-        t["events"][j]["obs"]["disk"][k]["pkl"] = False
-        out.append(("no pool pickle after close()", "E:close-disk-pool-pickle", t, 0))
-    j = next((i for i, e in enumerate(evs) if e["call"]["op"] == "delete" and e["raised"] == ""), None)
-    if j is not None:
-        t = upto(j)
-        k = next(i for i, d in enumerate(t["events"][j - 1]["obs"]["disk"]) if d["ex"])
-        t["events"][j]["obs"]["disk"][k] = copy.deepcopy(t["events"][j - 1]["obs"]["disk"][k])
-        out.append(("the folder is still there after delete()", "E:delete-disk-folder-exists", t, 0))
-    j = next((i for i, e in enumerate(evs) if e["call"]["op"] == "get_batch" and e["raised"] == "" and e["ret"]), None)
-    if j is not None:
-        t = upto(j)
-        t["events"][j]["ret"][0][1] += 1
-        out.append(("get_batch returns other content than was added", "E:get_batch-returns-the-stored-batch", t, 0))
-    for k, tr2 in enumerate(traces):
-        j = next((i for i, e in enumerate(tr2["events"]) if e["call"]["op"] == "get_batch" and e["raised"] == "IndexError"), None)
-        if j is not None:
-            t = copy.deepcopy(tr2)
-            t["events"] = t["events"][:j + 1]
-            t["events"][j]["raised"] = ""
-            out.append(("get_batch on a closed pool reported as returning", "E:get_batch-raises-as-transcribed", t, k))
+    def returned(op):
+        return lambda e: e["call"]["op"] == op and e["raised"] == ""
+
+    def bump(field):
+        def f(evs, j, p):
+            p["stores"][0][field] += 1
+        return f
+
+    def bump_content(evs, j, p):
+        p["stores"][0]["vals"][0] += 1
+
+    def reverse(evs, j, p):
+        if len(p["order"]) < 2:
+            raise IndexError
+        p["order"] = p["order"][::-1]
+        p["stores"] = p["stores"][::-1]
+
+    def other_seed(evs, j, p):
+        p["seed"] = 0 if p["seed"] != 0 else 7
+
+    def still_open(evs, j, p):
+        if p["stores"][0]["k"] != "npy":
+            raise IndexError
+        p["stores"][0]["op"] = True
+
+    def no_pickle(evs, j, p):
+        evs[j]["obs"]["disk"][0]["pkl"] = False
+
+    def folder_stays(evs, j, p):
+        if not evs[j - 1]["obs"]["disk"] or j == 0:
+            raise IndexError
+        evs[j]["obs"]["disk"] = copy.deepcopy(evs[j - 1]["obs"]["disk"])
+
+    def other_batch(evs, j, p):
+        evs[j]["ret"][0][1] += 1
+
+    def no_raise(evs, j, p):
+        evs[j]["raised"] = ""
+
+    attempt("the opened pool reports one batch more than was saved", "E:open-store-count", 0, returned("open"), bump("n"))
+    attempt("the opened pool reports another seed", "E:open-pool-seed", 0, returned("open"), other_seed)
+    attempt("the opened pool returns other content for batch 0", "E:open-store-content", 0, returned("open"), bump_content)
+    attempt("the opened pool lists its stores in another order", "E:open-pool-stores", 0, returned("open"), reverse)
+    attempt("a store is still open after close()", "E:close-store-open", 0, returned("close"), still_open)
+    attempt("no pool pickle after close()", "E:close-disk-pool-pickle", 0, returned("close"), no_pickle)
+    attempt("the folder is still there after delete()", "E:delete-disk-folder-exists", 0, returned("delete"), folder_stays)
+    attempt("get_batch returns other content than was added", "E:get_batch-returns-the-stored-batch", 0,
+            lambda e: e["call"]["op"] == "get_batch" and e["raised"] == "" and e["ret"], other_batch)
+    for k in range(len(traces)):
+        n = len(out)
+        attempt("get_batch on a closed pool reported as returning", "E:get_batch-raises-as-transcribed", k,
+                lambda e: e["call"]["op"] == "get_batch" and e["raised"] == "IndexError", no_raise)
+        if len(out) > n:
             break
     return out
 
@@ -799,7 +833,7 @@ def check_pool_life(ctx, design=True):
     traces = [record(sc) for sc in scs]              # before the TLC threads exist: the histories change the working directory
     bg = Design(ctx) if design else None
     corr = corruptions(scs, traces)
-    allv = ctx.validate("PoolLife_Trace", traces + [c[2] for c in corr], chunk=max(6, -(-(len(traces) + len(corr)) // 6)), name="poollife")
+    allv = ctx.validate("PoolLife_Trace", traces + [c[2] for c in corr], chunk=max(6, -(-(len(traces) + len(corr)) // (4 if ctx.quick else 6))), name="poollife")
     if bg is not None:
         bg.join()
     verdicts = allv[:len(traces)]
@@ -810,6 +844,8 @@ def check_pool_life(ctx, design=True):
         if v["verdict"] != want:
             raise tlc.MachineryFailure("PoolLife_Trace did not reject a corrupted trace (%s): expected %s, got %r" % (what, want, v))
         ctx.negative_controls.append(dict(run="corrupted trace / PoolLife_Trace: " + what, refuted=want))
+    if verdicts and verdicts[0]["verdict"] == "ok" and len(corr) < 9:
+        raise tlc.MachineryFailure("only %d of the 9 corrupted-trace controls could be built from the straight-path history" % len(corr))
     ncalls = nraised = nleft = 0
     inv_count = {}
     for sc, tr, v in zip(scs, traces, verdicts):
@@ -826,7 +862,7 @@ def check_pool_life(ctx, design=True):
             e = evs[k]
             ctx.drifted(v["verdict"], sc, detail=dict(call_index=k, call={f: x for f, x in e["call"].items() if x != C0[f]}, raised=e["raised"],
                                                       msg=e["msg"], ret=e["ret"], pools=[p for p in e["obs"]["pools"] if p["ex"]],
-                                                      disk=[dict(d=DIRS[i], **d) for i, d in enumerate(e["obs"]["disk"]) if d["ex"]]))
+                                                      disk=[dict(d, d=DIRS[d["j"] - 1]) for d in e["obs"]["disk"]]))
         for name in [x for x in v["drift"].split("|") if x]:
             inv_count[name] = inv_count.get(name, 0) + 1
             ctx.drifted("E:" + name, sc, detail=dict(pinned=sc.get("pin"), calls=[c["op"] for c in sc["calls"]],
